@@ -237,6 +237,49 @@ impl<'a, 'b> core::ops::Div<&'b R64> for &'a R64 {
     fn div(self, rhs: &'b R64) -> (r: R64) { unimplemented!() }
 }
 
+/// `x % y` on floats is x - trunc(x / y) * y (fmod); the divisor must be non-zero in the real model
+pub open spec fn r_rem(x: real, y: real) -> real { x - r_trunc(x / y) * y }
+
+impl vstd::std_specs::ops::RemSpecImpl<R64> for R64 {
+    open spec fn obeys_rem_spec() -> bool { true }
+    open spec fn rem_req(self, rhs: R64) -> bool { r64_nonzero(rhs) }
+    open spec fn rem_spec(self, rhs: R64) -> R64 { r64_of(r_rem(self@, rhs@)) }
+}
+impl core::ops::Rem<R64> for R64 {
+    type Output = R64;
+    #[verifier::external_body]
+    fn rem(self, rhs: R64) -> (r: R64) { unimplemented!() }
+}
+impl<'a> vstd::std_specs::ops::RemSpecImpl<&'a R64> for R64 {
+    open spec fn obeys_rem_spec() -> bool { true }
+    open spec fn rem_req(self, rhs: &'a R64) -> bool { r64_nonzero(*rhs) }
+    open spec fn rem_spec(self, rhs: &'a R64) -> R64 { r64_of(r_rem(self@, rhs@)) }
+}
+impl<'a> core::ops::Rem<&'a R64> for R64 {
+    type Output = R64;
+    #[verifier::external_body]
+    fn rem(self, rhs: &'a R64) -> (r: R64) { unimplemented!() }
+}
+impl<'a> vstd::std_specs::ops::RemSpecImpl<R64> for &'a R64 {
+    open spec fn obeys_rem_spec() -> bool { true }
+    open spec fn rem_req(self, rhs: R64) -> bool { r64_nonzero(rhs) }
+    open spec fn rem_spec(self, rhs: R64) -> R64 { r64_of(r_rem(self@, rhs@)) }
+}
+impl<'a> core::ops::Rem<R64> for &'a R64 {
+    type Output = R64;
+    #[verifier::external_body]
+    fn rem(self, rhs: R64) -> (r: R64) { unimplemented!() }
+}
+impl<'a, 'b> vstd::std_specs::ops::RemSpecImpl<&'b R64> for &'a R64 {
+    open spec fn obeys_rem_spec() -> bool { true }
+    open spec fn rem_req(self, rhs: &'b R64) -> bool { r64_nonzero(*rhs) }
+    open spec fn rem_spec(self, rhs: &'b R64) -> R64 { r64_of(r_rem(self@, rhs@)) }
+}
+impl<'a, 'b> core::ops::Rem<&'b R64> for &'a R64 {
+    type Output = R64;
+    #[verifier::external_body]
+    fn rem(self, rhs: &'b R64) -> (r: R64) { unimplemented!() }
+}
 impl vstd::std_specs::ops::NegSpecImpl for R64 {
     open spec fn obeys_neg_spec() -> bool { true }
     open spec fn neg_req(self) -> bool { true }
